@@ -334,6 +334,24 @@ pub const PARTITIONS: [[u8; 4]; 15] = [
     [0, 1, 2, 2],
     [0, 1, 2, 3],
 ];
+/// Hash pattern selected by VERIF_SEED (the runner exports VERIF_TAB = seed mod 15
+/// at compile time); the `_seedtab` harnesses use it in addition to the fixed patterns.
+pub const SEED_TAB: usize = match option_env!("VERIF_TAB") {
+    Some(s) => parse_usize(s) % 15,
+    None => 10,
+};
+const fn parse_usize(s: &str) -> usize {
+    let b = s.as_bytes();
+    let mut i = 0;
+    let mut v = 0usize;
+    while i < b.len() {
+        if b[i] >= b'0' && b[i] <= b'9' {
+            v = v * 10 + (b[i] - b'0') as usize;
+        }
+        i += 1;
+    }
+    v
+}
 pub fn tab_of(p: usize) -> [u8; 8] {
     let q = PARTITIONS[p];
     [q[0], q[1], q[2], q[3], q[0], q[1], q[2], q[3]]
@@ -822,9 +840,10 @@ pub mod ops;
 pub mod iters;
 pub mod capacity;
 pub mod memsize;
+pub mod hashers;
 
 #[cfg(not(kani))]
 pub fn replay(harness: &str, vals: Vec<Vec<u8>>) -> bool {
     sym::load(vals);
-    ops::dispatch(harness) || iters::dispatch(harness) || capacity::dispatch(harness) || memsize::dispatch(harness) || memsize::dispatch_big(harness)
+    ops::dispatch(harness) || iters::dispatch(harness) || capacity::dispatch(harness) || memsize::dispatch(harness) || memsize::dispatch_big(harness) || hashers::dispatch(harness)
 }
